@@ -104,6 +104,8 @@ def inflate_vs_execute(ctx, T, cases):
         lines.append(oc.exe_line(d, 'RUN'))
     outs = T.H(lines)
     for i, c in enumerate(cases):
+        if oc.NOTRUN in (outs[2 * i], outs[2 * i + 1]):
+            continue
         a = outs[2 * i].split(); b = oc.parse_exe(outs[2 * i + 1])
         ctx.count('evaluations', 1)
         if a[0] != 'OK' or not b['ok']:
